@@ -284,6 +284,16 @@ func init() {
 
 func localName(v ssa.Value) string {
 	if al, ok := v.(*ssa.Alloc); ok && al.Comment != "" {
+		// a parameter spilled to a local slot goes by the parameter's reviewed name
+		if refs := al.Referrers(); refs != nil {
+			for _, ref := range *refs {
+				if st, ok := ref.(*ssa.Store); ok && st.Addr == ssa.Value(al) {
+					if p, ok := st.Val.(*ssa.Parameter); ok && p.Name() == al.Comment {
+						return reviewedParamName(p)
+					}
+				}
+			}
+		}
 		return al.Comment
 	}
 	for _, ref := range *v.Referrers() {
